@@ -1,0 +1,62 @@
+//go:build verif
+
+package parser
+
+import (
+	"fmt"
+	"io"
+
+	"github.com/macrat/simplexer"
+)
+
+// VerifTokenType describes one entry of the lexer's token table.
+type VerifTokenType struct {
+	ID   int
+	Name string
+	Re   string
+}
+
+// VerifToken is one scanned token.
+type VerifToken struct {
+	ID      int
+	Name    string
+	Literal string
+}
+
+func verifTokName(id int) string {
+	// token numbers are assigned from yyPrivate+2 in declaration order; yyToknames starts with $end, error, $unk
+	i := id - yyPrivate + 1
+	if i >= 0 && i < len(yyToknames) {
+		return yyToknames[i]
+	}
+	return fmt.Sprintf("tok-%d", id)
+}
+
+// VerifTokenTypes returns the token table (order and regular expressions) the lexer uses.
+func VerifTokenTypes() []VerifTokenType {
+	out := []VerifTokenType{}
+	for _, tt := range tokenTypes() {
+		if r, ok := tt.(*simplexer.RegexpTokenType); ok {
+			out = append(out, VerifTokenType{ID: int(r.ID), Name: verifTokName(int(r.ID)), Re: r.Re.String()})
+		}
+	}
+	return out
+}
+
+// VerifTokens scans all tokens of the input with the parser's lexer.
+func VerifTokens(r io.Reader) (toks []VerifToken, err error) {
+	defer func() {
+		if p := recover(); p != nil {
+			err = fmt.Errorf("%v", p)
+		}
+	}()
+	l := NewLexer(NewReader(r, "<verif>"))
+	for {
+		var lval yySymType
+		id := l.Lex(&lval)
+		if id < 0 {
+			return toks, nil
+		}
+		toks = append(toks, VerifToken{ID: id, Name: verifTokName(id), Literal: lval.token.Literal})
+	}
+}
